@@ -190,6 +190,11 @@ class ParseMCNPCell:
             material_id = kws['material']
         if kws['density'] is not None:
             density = normalize_float(kws['density'])
+        # the material number in canonical form ('01' is material 1); a void
+        # cell (possibly made void by LIKE n BUT MAT=0) has no density
+        material_id = str(int(material_id))
+        if material_id == '0':
+            density = None
         fillid = self.to_fillid(kws, lat_opt)
         kws['trcl'] = [] if not kws['trcl'] else [kws['trcl']]
 
